@@ -272,7 +272,8 @@ Definition selected (c : config) (t : bytes * bytes) : bool := list_match (c_gf 
 Definition probes : list (bytes * bytes) :=
   Eval vm_compute in map (fun p => (bs (fst p), bs (snd p)))
     [("grp", "name"); ("grp", "name2"); ("grp2", "name"); ("Group", "Test"); ("a", "b"); ("ab", "ba"); ("x", "y");
-     ("grp", "other"); ("other", "name"); ("g1", "t1"); ("G", "T"); ("mygrp", "myname")]%string.
+     ("grp", "other"); ("other", "name"); ("g1", "t1"); ("G", "T"); ("mygrp", "myname");
+     ("aaab", "xababac"); ("Looop", "TestTestTests")]%string.
 
 (* CommandLineTestRunner::parseArguments and runAllTestsMain, reduced to what decides "is anything printed / does anything
    run":  if (!arguments_->parse(plugin)) { output_ = console; output_->print(needHelp() ? help() : usage()); return false; }
